@@ -166,13 +166,25 @@ def eval_api(ctx):
     use_model = ctx.runner is not None
     m_cur = ctx.model("c17_jobs", [fields(s, "cur") for s in cases]) if use_model else None
     m_fix = ctx.model("c17_jobs", [fields(s, "fix") for s in cases]) if use_model else None
+    def lines_of(il):
+        outs = core.dec_line(il) if not il.startswith(("PANIC", "DIED", "TIMEOUT")) else [il]
+        return outs if outs else [""]
+
+    # false-alarm discipline (shared, loaded machine): a case that looks wrong is executed once more, alone;
+    # only what reproduces is kept. The job table logic is deterministic given the controlled completions.
+    suspicious = [k for k, (seq, il) in enumerate(zip(cases, impl))
+                  if any(kn is None for _, kn in oracle(seq, lines_of(il)))
+                  or (use_model and il != m_cur[k] and il != m_fix[k])]
+    if suspicious and len(suspicious) <= 60:
+        again = ctx.impl("c17_jobs", [fields(cases[k], "cur") for k in suspicious], timeout=1500, shards=2)
+        for k, il2 in zip(suspicious, again):
+            if il2 != impl[k]:
+                ctx.notes.append("api case %d gave a different table on repetition: %r / %r" % (k, impl[k][:120], il2[:120]))
+                impl[k] = il2
     mism, specv = [], []
     n_cur = n_fix = n_diff = 0
     for k, (seq, il) in enumerate(zip(cases, impl)):
-        outs = core.dec_line(il) if not il.startswith(("PANIC", "DIED", "TIMEOUT")) else [il]
-        if seq and len(outs) == 0:
-            outs = [""]
-        # dec_line drops nothing: an empty table is the empty field
+        outs = lines_of(il)
         for why, known in oracle(seq, outs):
             v = {"input": {"ops": seq}, "why": why, "code": outs}
             if known:
